@@ -1044,6 +1044,9 @@ func (st *Runtime) evalMultiplicativeExpression(node *MultiplicativeExprNode) re
 			if needFloatPromotion {
 				left = reflect.ValueOf(float64(left.Int()) / right.Float())
 			} else {
+				if toInt(right) == 0 {
+					node.Right.errorf("division by zero")
+				}
 				left = reflect.ValueOf(left.Int() / toInt(right))
 			}
 		} else if isFloat(kind) {
@@ -1052,6 +1055,9 @@ func (st *Runtime) evalMultiplicativeExpression(node *MultiplicativeExprNode) re
 			if needFloatPromotion {
 				left = reflect.ValueOf(float64(left.Uint()) / right.Float())
 			} else {
+				if toUint(right) == 0 {
+					node.Right.errorf("division by zero")
+				}
 				left = reflect.ValueOf(left.Uint() / toUint(right))
 			}
 		} else {
